@@ -67,7 +67,7 @@ func GenC17(t *rapid.T) *C17Case {
 			switch {
 			case shape == 3:
 				f = []float64{0, math.Copysign(0, -1), 1, -1, 0.5}[drawInt(t, 0, 4, "f")]
-			case drawInt(t, 0, 5, "inf") == 0:
+			case oneIn(t, 6, "inf"):
 				f = []float64{math.Inf(1), math.Inf(-1), math.MaxFloat64, -math.MaxFloat64, 5e-324, -5e-324}[drawIdx(t, 6, "x")]
 			default:
 				f, _ = GenFloat(t)
@@ -84,7 +84,7 @@ func GenC17(t *rapid.T) *C17Case {
 		cfg := TreeCfg{MaxDepth: 2, MaxWidth: 3, MaxStr: 4}
 		v := V{K: KList}
 		m := n
-		if drawInt(t, 0, 9, "empty") == 0 {
+		if oneIn(t, 10, "empty") {
 			m = 0
 		}
 		for i := 0; i < m; i++ {
